@@ -430,7 +430,34 @@ type Obs struct {
 	Panics   int      `json:"panics"`
 }
 
-func runScenario(s Scenario) Obs {
+// clean: everything returned, no settle ran into the watchdog, the lock is free.
+func (o Obs) clean() bool {
+	for _, f := range o.Finished {
+		if !f {
+			return false
+		}
+	}
+	return o.Timeouts == 0 && o.LockFree
+}
+
+// runConfirmed runs a scenario; a run that is not clean is repeated (fresh service, twice, with a
+// doubled watchdog) before it counts: a real hang reproduces every time, a stalled machine does not.
+// Only the first hung scenarios of a run are confirmed this way (afterwards the run is known bad and
+// the short watchdog applies).
+func runConfirmed(s Scenario) (Obs, int) {
+	o, hung := runOnce(s, 1)
+	retries := 0
+	for !o.clean() && retries < 2 && hungScenarios < 3 {
+		retries++
+		o, hung = runOnce(s, 2)
+	}
+	if hung {
+		hungScenarios++
+	}
+	return o, retries
+}
+
+func runOnce(s Scenario, watchdogFactor int) (Obs, bool) {
 	var initial blockrelay.ExecutionConfigurator
 	if s.Init == "empty" {
 		initial = &v2.ExecutionConfig{Version: 2}
@@ -452,7 +479,7 @@ func runScenario(s Scenario) Obs {
 		BuilderBidProvider:          bidProvider{},
 		InitialExecutionConfig:      initial,
 	})
-	r := &runner{svc: svc, watchdog: watchdog()}
+	r := &runner{svc: svc, watchdog: time.Duration(watchdogFactor) * watchdog()}
 	ctx, cancel := context.WithCancel(context.Background())
 	defer cancel()
 	repeat := 1
@@ -516,7 +543,6 @@ func runScenario(s Scenario) Obs {
 		o.DoneAt = append(o.DoneAt, th.doneAt)
 	}
 	if r.hung {
-		hungScenarios++
 		// let the goroutines that are only waiting in a gate go; those wedged on the lock stay
 		for _, th := range r.threads {
 			if th.account != nil && th.account.gate != nil && !th.released {
@@ -525,7 +551,7 @@ func runScenario(s Scenario) Obs {
 			}
 		}
 	}
-	return o
+	return o, r.hung
 }
 
 // ---------------------------------------------------------------------------------------------
@@ -817,7 +843,13 @@ func TestC12(t *testing.T) {
 	search := os.Getenv("VERIF_SEARCH") == "1"
 
 	run := func(s Scenario, origin string) {
-		o := runScenario(s)
+		o, retries := runConfirmed(s)
+		if retries > 0 {
+			col.Count("scenarios-repeated-before-counting")
+			if o.clean() {
+				col.Count("unreproducible-hang-or-timeout")
+			}
+		}
 		refreshes, readers := 0, 0
 		for _, c := range s.Cmds {
 			switch c.Op {
